@@ -9,11 +9,12 @@ import collections
 from . import rt
 
 
-def explore(run, bound, kinds=None, cap=None):
+def explore(run, bound, kinds=None, cap=None, prune=lambda result: bool(result[0])):
     """run(prefix) -> (points, result); points as recorded by rt.Chooser.
     yields (choices, ndev, result) for every execution with at most `bound` deviations.
     kinds: optional set of choice kinds that may deviate.  cap: optional execution cap
-    (the caller must report it when hit: the generator sets explore.capped)."""
+    (the caller must report it when hit: the generator sets explore.capped).  prune(result): do not
+    branch below an execution that already violates (result[0] is the problem list by convention)."""
     explore.capped = False
     todo = collections.deque([[]])
     n = 0
@@ -32,6 +33,8 @@ def explore(run, bound, kinds=None, cap=None):
         dev = sum(1 for (_k, c) in prefix if c)
         if dev >= bound:
             continue
+        if prune is not None and prune(result):
+            continue                      # a violating execution is reported, not refined further
         for i in range(len(prefix), len(points)):
             kind, nopt, _c, _info = points[i]
             if kinds is not None and kind not in kinds:
